@@ -27,12 +27,14 @@ def options():
     return out
 
 
-def ob(sec, opt, mode, L, timeout):
+def ob(sec, opt, mode, L, timeout, fixb=None):
+    fixb = fixb or {}
     n = {"bool": 3, "str": 3 * L, "strseq": 6 * L, "excl": 6 * L, "outdir": 3, "wrongtype": 1}[mode]
-    return vf.CH(f"C16 {mode} {sec}.{opt}", "c16_layer.py", dict(MODE=mode, SECTION=sec, OPTION=opt, CLI=CLI.get((sec, opt)), L=L, NCP=n),
+    return vf.CH(f"C16 {mode} {sec}.{opt}" + (f" {sorted(fixb.items())}" if fixb else ""), "c16_layer.py",
+                 dict(MODE=mode, SECTION=sec, OPTION=opt, CLI=CLI.get((sec, opt)), L=L, NCP=n, FIXB=fixb),
                  timeout=timeout, encodes=ENC, unblock=["os.mkdir"],
-                 symbolic="for each of the three writable sources (per-user file, -s file, command line where a flag exists): whether it sets the option, and the value it gives"
-                          + ("; relative_to_config" if mode == "outdir" else ""),
+                 symbolic="whether a -s file is given at all; for each of the three writable sources (per-user file, -s file, command line where a flag exists): whether it sets the option, and the value it gives"
+                          + ("; relative_to_config switched on in the -s file and/or the per-user file" if mode == "outdir" else ""),
                  bound=f"strings of exactly {L} chars, lists of 2 strings, output directories from a 4-entry menu")
 
 
@@ -42,7 +44,12 @@ def build(tier):
     L = 2 if quick else 3
     obs = []
     for (sec, opt, mode) in options():
-        obs.append(ob(sec, opt, mode, L, t))
+        if mode == "outdir":      # split: with / without a -s file x command-line flag present / absent
+            for us in (False, True):
+                for cs in (False, True):
+                    obs.append(ob(sec, opt, mode, L, t, dict(use_s=us, c_set=cs)))
+        else:
+            obs.append(ob(sec, opt, mode, L, t))
     # C16.b a value of the wrong type is rejected, in either file
     for (sec, opt) in (("input", "recursive"), ("input", "include_undocumented_function"), ("rst", "file_extensions_in_titles"),
                        ("input", "kwargs_doc_trigger_string"), ("rst", "module_path_separator")):
